@@ -708,6 +708,72 @@ def same_float(x, bits):
     return struct.pack("<d", x) == struct.pack("<d", v)
 
 
+def check_text_denotes(ctx, desc, text):
+    """does `text` (one printed result, without the final newline) denote the value `desc` (n:… / q:… / m:…)?"""
+    d = desc.split(":")
+    try:
+        if d[0] == "n":
+            re_, im_ = d[1].split("_")
+            r = read_number(text)
+            return None if same_float(r[0], re_[1:]) and same_float(r[1], im_[1:]) else "reads back as %r" % (r,)
+        if d[0] == "q":
+            sym = ctx["dump"]["units"][int(d[1])]["symbol"]
+            if not text.endswith(sym):
+                return "does not end with the unit symbol %r" % sym
+            body = text[: -len(sym)]
+            re_, im_ = d[2].split("_")
+            both = fl(re_[1:]) != 0.0 and fl(im_[1:]) != 0.0
+            if both != (body.startswith("(") and body.endswith(")")):
+                return "parenthesised iff both parts are non-zero is violated"
+            r = read_number(body[1:-1] if both else body)
+            return None if same_float(r[0], re_[1:]) and same_float(r[1], im_[1:]) else "number part reads back as %r" % (r,)
+        if d[0] == "m":
+            rws, cls = int(d[1]), int(d[2])
+            cells = d[3].split(",")
+            if not (text.startswith("[") and text.endswith("]")):
+                return "no enclosing brackets"
+            rows = text[1:-1].split("\n")
+            if len(rows) != rws:
+                return "%d lines for %d rows" % (len(rows), rws)
+            k = 0
+            for i, row in enumerate(rows):
+                if i > 0:
+                    if not row.startswith(" "):
+                        return "row %d lacks its leading blank" % (i + 1)
+                    row = row[1:]
+                ents = row.split(", ")
+                if len(ents) != cls:
+                    return "row %d has %d entries, expected %d" % (i + 1, len(ents), cls)
+                for e in ents:
+                    re_, im_ = cells[k].split("_")
+                    k += 1
+                    r = read_number(e.strip(" "))
+                    if not (same_float(r[0], re_[1:]) and same_float(r[1], im_[1:])):
+                        return "entry reads back as %r" % (r,)
+    except ValueError as e:
+        return "unreadable: %s" % e
+    return None
+
+
+def oracle_reader_hist(ctx, name, a, b, cpath):
+    """C15 on computed values: every printed result line is read back and compared with the value it was printed from"""
+    rep = ctx["rep"]
+    n = bad = 0
+    for cid, lines in a.items():
+        for l in lines:
+            p = l.split(" ")
+            if len(p) > 4 and p[1].startswith("O") and p[2] == "val" and p[3][0] in "nqm" and p[-1].startswith("text="):
+                text = unhx(p[-1][5:])
+                n += 1
+                why = "no final newline" if not text.endswith("\n") else check_text_denotes(ctx, p[3], text[:-1])
+                if why:
+                    bad += 1
+                    if bad <= 4:
+                        rep.violation("printed text %r does not denote the computed value %s" % (text, p[3][:80]), case=engine.find_case(cpath, cid),
+                                      impl=[l[:300]], stream=name, oracle=why)
+    rep.count("oracle:reader (computed values) judged", n)
+
+
 def oracle_reader(ctx, name, a, b, cpath):
     """C15: the printed text is read back by an independent reader and compared with the value (bitwise up to
     the sign of zero)"""
